@@ -39,7 +39,7 @@ def validateAnswer (p : Project) : String :=
 def validateVerdict (tag : String) (impl : List String) : String :=
   let accepted := impl == ["ok"]
   let rejected := impl.head? == some "diag" && impl.length ≥ 2
-  if tag == "valid" then
+  if tag == "valid" || tag.startsWith "valid:" then
     if accepted then "ok" else "bad:valid-rejected:" ++ "+".intercalate (impl.drop 1)
   else if tag.startsWith "fault:" then
     if rejected then "ok" else "bad:mutant-accepted:" ++ (tag.drop 6).toString
